@@ -11,6 +11,7 @@ structure DState where
 /-- protocol:
     `cfg cls=basic depth=5 w=8` → `ok`      (BasicFifo)
     `cfg cls=fifo depth=5 w=8`  → `ok`      (connectors.FIFO over SyncFIFO)
+    `cfg cls=basic depth=0 …`   → `raise AssertionError`, every following `cyc` line → `-`
     `cyc w=17 r=1 p=0 c=0` (absent write: `w=-`) →
        basic: `w=1 r=42 p=- c=0 rdy=1 lvl=2 ri=0 wi=2 head=42`   (rdy = peek.ready = allocator.free.ready;
               `read.ready`/`write.ready` are constant 1 in the source, their effective readiness shows in the done bits)
@@ -21,7 +22,10 @@ def stepLine (s : DState) (line : String) : DState × String :=
   match t.head? with
   | some "cfg" =>
     match kv? t "cls", nat? t "depth" with
-    | some "basic", some d => ({ cls := "basic", depth := d, basic := init d, queue := [] }, "ok")
+    | some "basic", some d =>
+      -- CircularAllocator(0) → `mod_add(·, 0, ·, ·)` → `assert mod > 0` (functions.py:62) at elaboration
+      if d == 0 then ({ s with cls := "raised" }, "raise AssertionError")
+      else ({ cls := "basic", depth := d, basic := init d, queue := [] }, "ok")
     | some "fifo", some d => ({ cls := "fifo", depth := d, basic := init d, queue := [] }, "ok")
     | _, _ => ({ s with cls := "" }, "bad-op")
   | some "cyc" =>
@@ -42,6 +46,7 @@ def stepLine (s : DState) (line : String) : DState × String :=
         else if s.cls == "fifo" then
           let (q', o) := specStep s.depth s.queue (fifoIn w (r == 1))
           ({ s with queue := q' }, s!"w={showBool o.wr.isSome} r={showOpt o.rd} rdy={showBool o.rrdy}{showBool o.wrdy}")
+        else if s.cls == "raised" then (s, "-")
         else (s, "bad-op")
     | _, _ => (s, "bad-op")
   | _ => (s, "bad-op")
